@@ -1093,7 +1093,7 @@ func (ex *Exec) recvJustified(in *ssa.UnOp, r Term) {
 		t, err := env.Goal(ca.C.E)
 		txt := ca.C.Text
 		if err != nil {
-			if !strings.Contains(err.Error(), "unknown identifier") {
+			if !staleRef(err) {
 				unsup("recv %d assert: %v", k, err)
 			}
 			t = "false"
